@@ -63,7 +63,7 @@ def restrict_care(care):
 
 
 LEMMAS = dict(n=0, keep=[], cap=0, rng=None, last=None, must=[])
-ORDER = dict(key=None)      # global iteration order of sets (C06): key function or None (= ascending / insertion)
+ORDER = dict(key=None, tie=None)      # global iteration order of sets (C06): key function or None (= ascending / insertion)
 
 
 def reset():
@@ -72,7 +72,7 @@ def reset():
     SUBST.clear()
     TT.update(on=False, mask=0, var={}, by={})
     LEMMAS.update(n=0, keep=[], cap=0, rng=None, last=None, must=[])
-    ORDER.update(key=None)
+    ORDER.update(key=None, tie=None)
     VAR_IDX.clear()
     del VAR_NAMES[:]
     _SUPP.clear()
@@ -406,8 +406,8 @@ def merge(g, a, b):
     if not isinstance(a, SChoice) and not isinstance(b, SChoice):
         if same_concrete(a, b):
             return a
-        if isinstance(a, tuple) and isinstance(b, tuple) and len(a) == len(b):
-            return tuple(merge(g, x, y) for x, y in zip(a, b))
+        if isinstance(a, tuple) and isinstance(b, tuple) and len(a) == len(b) and (is_symbolic(a) or is_symbolic(b)):
+            return tuple(merge(g, x, y) for x, y in zip(a, b))     # concrete tuples (e.g. tuple-valued states) stay atomic
     out = [(b_and(g, ga), va) for (ga, va) in alts_of(a)]
     ng = b_not(g)
     out += [(b_and(ng, gb), vb) for (gb, vb) in alts_of(b)]
@@ -472,6 +472,11 @@ class MSet:
         try:
             return sorted(self.order)
         except TypeError:
+            if ORDER['tie'] is not None:
+                # unsortable keys (formulas, mixed types): CPython's order is a function of their hashes, i.e. of the
+                # hash seed; modelled by one seeded global order of printed forms
+                import hashlib
+                return sorted(self.order, key=lambda k: hashlib.sha1(('%s/%r' % (ORDER['tie'], k)).encode()).hexdigest())
             return list(self.order)
 
     def __repr__(self):
